@@ -81,8 +81,15 @@ def make_root(case):
   root = graphs.gen_graph(r, size=case['size'], positional=case.get('positional', True),
                           nt_bias=case.get('nt_bias', 0.0), duck=case.get('duck', 0.0),
                           tagged_values=case.get('tagged_values', 0.0))
+  # deep chains stay inside CPython's recursion budget (a list link costs two traversal levels;
+  # fdl.build needs about five frames per level, the default limit is 1000 frames)
+  levels = 0
   for _ in range(case.get('deep', 0)):
-    root = [fdl.Config(graphs.node_fn(1, 0), p=root)] if r.random() < 0.5 else fdl.Config(graphs.node_fn(1, 1), q=root)
+    wrap = r.random() < 0.5
+    levels += 2 if wrap else 1
+    if levels > 150:
+      break
+    root = [fdl.Config(graphs.node_fn(1, 0), p=root)] if wrap else fdl.Config(graphs.node_fn(1, 1), q=root)
   return root
 
 
